@@ -409,7 +409,7 @@ fn float_patterns<T: PFloat>(c: &Ctx, l: Lay, salt: u64) -> Vec<u64> {
 fn floats<A, T>(c: &mut Ctx)
 where
     A: Fx + PartialOrd<T>,
-    T: PFloat + PartialOrd<A>,
+    T: PFloat + PartialOrd<A> + LossyFrom<A>,
 {
     let la = A::lay();
     if c.w8only {
@@ -515,6 +515,9 @@ where
                 pf_val(|| a.wrapping_to_num::<T>()),
                 pf_pair(|| a.overflowing_to_num::<T>()),
             ]);
+            // LossyFrom<fixed> for the float type: the same correctly rounded value
+            c.wr.raw(",\"lossy\":");
+            c.wr.out1(&pf_val(|| T::lossy_from(a)));
             c.wr.raw("}");
             c.wr.end();
         }
@@ -707,7 +710,7 @@ where
     sfv::sf::Wrapping<A>: serde::Serialize,
     i8: PartialOrd<A>, i16: PartialOrd<A>, i32: PartialOrd<A>, i64: PartialOrd<A>, i128: PartialOrd<A>, isize: PartialOrd<A>,
     u8: PartialOrd<A>, u16: PartialOrd<A>, u32: PartialOrd<A>, u64: PartialOrd<A>, u128: PartialOrd<A>, usize: PartialOrd<A>,
-    f32: PartialOrd<A>, f64: PartialOrd<A>,
+    f32: PartialOrd<A> + LossyFrom<A>, f64: PartialOrd<A> + LossyFrom<A>,
 {
     if c.on("cmp") || c.on("conv") {
         ints::<A, i8>(c); ints::<A, i16>(c); ints::<A, i32>(c); ints::<A, i64>(c); ints::<A, i128>(c); ints::<A, isize>(c);
@@ -789,6 +792,25 @@ fn ev_to_int_lossy<A: Fx, I: PInt + LossyFrom<A>>(c: &mut Ctx) {
         c.wr.num(a.val());
         c.wr.raw(",\"o\":");
         c.wr.outs(&[pi_val(|| I::lossy_from(a)), pi_val(|| I::lossy_from(a))]);
+        c.wr.raw("}");
+        c.wr.end();
+    }
+}
+fn ev_to_int_from<A: Fx, I: PInt + From<A>>(c: &mut Ctx) {
+    if c.w8only { return; }
+    for ar in single_values(c, A::lay(), 49) {
+        let a = A::from_raw(ar);
+        head(c, "from");
+        c.wr.raw(",\"tr\":\"From\",\"it\":\"");
+        c.wr.raw(I::NAME);
+        c.wr.raw("\",\"A\":");
+        c.wr.lay(A::lay());
+        c.wr.raw(",\"B\":");
+        c.wr.lay(I::lay());
+        c.wr.raw(",\"a\":");
+        c.wr.num(a.val());
+        c.wr.raw(",\"o\":");
+        c.wr.outs(&[pi_val(|| I::from(a)), pi_val(|| { let i: I = a.into(); i })]);
         c.wr.raw("}");
         c.wr.end();
     }
